@@ -314,10 +314,130 @@ def repro_make_id3v1():
     return out
 
 
+# ---------------------------------------------------------------------------------------------------------------------
+# ID3.load: the ID3v1 merge and `translate` (Model/Id3Load.lean, driver `id3conv op=load|loadv1`)
+
+def gen_v1_block(rng, tags):
+    """an ID3v1 block: the one MakeID3v1 writes for these tags, one for other values, a legacy short-year one, or an empty one"""
+    from mutagen import id3 as I
+    from mutagen.id3._id3v1 import MakeID3v1
+    kind = rng.choice(["same", "same", "other", "other", "prefix", "legacy", "empty", "spaces"])
+    if kind == "same":
+        try:
+            return kind, bytes(MakeID3v1(tags))
+        except Exception:
+            kind = "other"
+    def fld(s, n):
+        return s.encode("latin1", "replace")[:n].ljust(n, b"\0")
+    title, artist, album = rng.choice(["", "T1", "Other title"]), rng.choice(["", "Art"]), rng.choice(["", "Alb"])
+    year = rng.choice(["", "1999", "20", "abcd"])
+    comment = rng.choice(["", "a comment", "Comment one", "Comm", " lead"])
+    track = rng.choice([0, 1, 32, 200]); genre = rng.choice([255, 17, 0, 200])
+    if kind == "prefix":
+        comms = [f for k, f in tags.items() if k.startswith("COMM::") and f.text]
+        if comms:
+            comment = comms[0].text[0][:rng.choice([3, 28])]
+    if kind == "empty":
+        title = artist = album = year = comment = ""; track = 0; genre = 255
+    b = b"TAG" + fld(title, 30) + fld(artist, 30) + fld(album, 30) + fld(year, 4) + fld(comment, 28) + b"\0" + bytes([track, genre])
+    if kind == "spaces":
+        b = b"TAG" + title.encode("latin1").ljust(30, b" ") + fld(artist, 30) + fld(album, 30) + fld(year, 4) + comment.encode("latin1").ljust(30, b" ")[:29] + bytes([32, genre])
+    if kind == "legacy":
+        b = b[:93] + b[93:97][:rng.choice([0, 1, 2, 3])] + b[97:]
+    return kind, b
+
+
+def ser_comms(tags):
+    cs = [f for k, f in sorted(tags.items()) if type(f).__name__ == "COMM"]
+    if not cs:
+        return "e"
+    return ";".join("%s/%s" % (enc_str(f.desc), enc_str(f.text[0]) if f.text else "-") for f in cs)
+
+
+def run_load(ctx, reqs):
+    import io
+    from mutagen import id3 as I
+    rng = ctx.rng
+    audio = b"\xff\xfb\x90\x00" + b"\x55" * 300
+    for i in range(ctx.budget(300, 5000)):
+        t = I.ID3()
+        def maybe(p, mk):
+            if rng.random() < p:
+                try:
+                    t.add(mk())
+                except Exception:
+                    pass
+        maybe(0.6, lambda: I.TIT2(encoding=3, text=[rng.choice(["Title", "T1", "Ünï", "x" * 40])]))
+        maybe(0.5, lambda: I.TPE1(encoding=3, text=[rng.choice(["Art", "Artist"])]))
+        maybe(0.4, lambda: I.TALB(encoding=3, text=["Alb"]))
+        maybe(0.5, lambda: I.TDRC(encoding=3, text=[rng.choice(["2004", "2004-01-02", "1999"])]))
+        maybe(0.4, lambda: I.TRCK(encoding=3, text=[rng.choice(["4", "4/15", "abc"])]))
+        maybe(0.4, lambda: I.TCON(encoding=3, text=[rng.choice(["17", "(17)", "Rock", "(1)17"])]))
+        for desc, lang in rng.sample([("", "eng"), ("", "deu"), ("d", "eng"), ("ID3v1 Comment", "eng"), ("ID3v1 Comment", "XXX")], rng.choice([0, 1, 1, 2])):
+            maybe(1.0, lambda desc=desc, lang=lang: I.COMM(encoding=3, lang=lang, desc=desc, text=[rng.choice(["a comment", "Comment one and more text beyond 28", " lead", "Comm"])]))
+        maybe(0.2, lambda: I.TSOP(encoding=3, text=["s"]))
+        maybe(0.2, lambda: I.RVA2(desc="album", channel=1, gain=1.0, peak=0.5))
+        saved_ver = rng.choice([4, 4, 3])
+        has_v2 = rng.random() < 0.8
+        kind, block = gen_v1_block(rng, t)
+        with_block = rng.random() < 0.85
+        f = io.BytesIO(audio)
+        if has_v2 and len(t):
+            t2 = I.ID3()
+            for fr in t.values():
+                t2.add(fr)
+            if saved_ver == 3:
+                t2.update_to_v23()
+            t2.save(f, v1=0, v2_version=saved_ver)
+        data = f.getvalue() + (block if with_block else b"")
+        tr = rng.choice([0, 4, 4, 3])
+        kw = dict(translate=bool(tr))
+        if tr:
+            kw["v2_version"] = tr
+        case = {"op": "ID3.load", "v2": has_v2 and len(t) > 0, "saved_as": saved_ver, "v1_block": kind if with_block else None, "translate": tr,
+                "data": hx(data) if len(data) < 1400 else "len=%d" % len(data)}
+        k, r = timed(lambda: I.ID3(io.BytesIO(data), **kw), 10)
+        if k == "hang":
+            ctx.violation("id3load:hang", "did not finish", case); continue
+        ka, a = timed(lambda: I.ID3(io.BytesIO(data), load_v1=False, translate=False), 10)
+        if ka == "ok":
+            # a header was found: `a` is what _read made of the body
+            if k != "ok":
+                ctx.violation("id3load:raises-%s" % type(r).__name__, "%r" % (r,), case); continue
+            line = "id3conv op=load tag=%s comms=%s vmaj=%d block=%s translate=%d" % (
+                ser_tag(a), ser_comms(a), a.version[1], hx(block) if with_block else "-", tr)
+            impl = "ok v=%s" % ser_tag(r)
+            what = "ID3.load: v1 merge + translate"
+            ctx.hist["id3load:v2+%s" % (kind if with_block else "nov1")] += 1
+            # the property on the real outcome: every key of the v2-only load that translate keeps is there; what was added comes from the block
+            added = sorted(set(r.keys()) - set(I.ID3(io.BytesIO(data), load_v1=False, **kw).keys()))
+            for key in added:
+                ctx.hist["id3load:added:" + key.split(":")[0]] += 1
+                if key.split(":")[0] not in ("TIT2", "TPE1", "TALB", "TDRC", "TYER", "COMM", "TRCK", "TCON", "TDAT", "TIME"):
+                    ctx.violation("id3load:unexpected-frame-from-v1:" + key, "a frame that ID3v1 cannot carry was added by the v1 merge", case)
+        else:
+            # no header: the v1 frames alone, or ID3NoHeaderError
+            if k != "ok":
+                impl = "ok v=-" if not with_block else classify(r)
+                if with_block and kind != "empty":
+                    pass
+                reqs_line = None
+            if with_block:
+                line = "id3conv op=loadv1 block=%s v2=%d translate=%d" % (hx(block), tr if tr else 4, 1 if tr else 0)
+                impl = ("ok v=%s" % ser_tag(r)) if k == "ok" else "ok v=-"
+                what = "ID3.load: v1 only"
+                ctx.hist["id3load:v1only:%s:%s" % (kind, k)] += 1
+            else:
+                continue
+        ctx.case(key=("id3load", i), nontrivial=with_block, modelled=True, sample=case if i == 4 else None)
+        reqs.append((line, impl, case, what))
+
+
 def run(ctx):
     reqs = []
     run_v1(ctx, reqs)
     run_convert(ctx, reqs)
+    run_load(ctx, reqs)
     if ctx.model_ok() and reqs:
         answers = ctx.driver.ask([r[0] for r in reqs])
         for (line, impl, case, what), ans in zip(reqs, answers):
